@@ -384,3 +384,70 @@ Example kept_kinds_unsorted :
   span_of_index (mkIndex KIndex PObject [CInt 3; CStr "a"; CInt 3]) = mkSpan SList [CInt 3; CStr "a"; CInt 3] /\
   span_of_index (mkIndex KRange PInt64 [CInt 3; CInt 2]) = mkSpan SList [CInt 3; CInt 2].
 Proof. repeat split; reflexivity. Qed.
+
+(* ------------------------------------------------------------------ the remaining round-trip guards are necessary too *)
+(* strict=True together with the status column *)
+Lemma from_to_strict_with_status_refuted :
+  exists m c t, cnames c = fnames m /\ cstrict c = true /\
+    model_to_table true false true m = TOk t /\ from_table c t = TErr InitialisationError.
+Proof.
+  exists float_model, (mkClass ["X"; "_Y"] NFloat (CFlt (FInt 0)) true). eexists.
+  split; [reflexivity|]. split; [reflexivity|]. split; [vm_compute; reflexivity|]. vm_compute. reflexivity.
+Qed.
+
+(* a variable called like the positional parameter of __init__: TypeError at the call; called dtype: TypeError in astype *)
+Definition span_named_model (nm : string) : fmodel :=
+  mkModel ex_span ["X"; nm] [("X", ex_X); (nm, ex_Y)]
+          (mkSeries NStr [CStr "-"; CStr "-"; CStr "-"]) (mkSeries NInt [CInt (-1); CInt (-1); CInt (-1)]).
+Lemma from_to_parameter_name_refuted :
+  exists m1 m2 c1 c2 t1 t2,
+    cnames c1 = fnames m1 /\ In "span" (fnames m1) /\ model_to_table false false true m1 = TOk t1 /\ from_table c1 t1 = TErr TypeError /\
+    cnames c2 = fnames m2 /\ In "dtype" (fnames m2) /\ model_to_table false false true m2 = TOk t2 /\ from_table c2 t2 = TErr TypeError.
+Proof.
+  exists (span_named_model "span"), (span_named_model "dtype"),
+         (mkClass ["X"; "span"] NFloat (CFlt (FInt 0)) false), (mkClass ["X"; "dtype"] NFloat (CFlt (FInt 0)) false).
+  eexists. eexists.
+  split; [reflexivity|]. split; [cbn; auto|]. split; [vm_compute; reflexivity|]. split; [vm_compute; reflexivity|].
+  split; [reflexivity|]. split; [cbn; auto|]. split; [vm_compute; reflexivity|]. vm_compute. reflexivity.
+Qed.
+
+(* every hypothesis of the round-trip theorem at once, for one model and class *)
+Lemma roundtrip_hypotheses_satisfiable :
+  exists m c ix,
+    wf_model m (length (splabels (fspan m))) /\ pd_index (fspan m) = Some ix /\ span_stable (fspan m) = true /\
+    cnames c = fnames m /\ cstrict c = true /\
+    (forall k, In k (fnames m) -> mem_s k init_params = false) /\
+    (forall k s, In k (fnames m) -> assoc_s k (fvars m) = Some s ->
+       sdt s = cdtype c /\ sdt s <> NObj /\ forallb (cell_has_dtype (cdtype c)) (scells s) = true) /\
+    exists k, In k (fnames m) /\ starts_underscore k = true.
+Proof.
+  exists float_model, (mkClass ["X"; "_Y"] NFloat (CFlt (FInt 0)) true). eexists.
+  split; [apply float_model_wf|]. split; [reflexivity|]. split; [reflexivity|]. split; [reflexivity|]. split; [reflexivity|].
+  destruct roundtrip_hyps as [_ [H1 H2]]. split; [exact H1|]. split; [exact H2|].
+  exists "_Y". split; [cbn; auto|reflexivity].
+Qed.
+
+(* "reproduces the span" is about the LABELS: the kind of the span object changes for everything that is not one of the four
+   kept pandas kinds — a range comes back as a list, a list of Timestamps as a DatetimeIndex (labels identical, in order) *)
+Lemma span_kind_changes :
+  (exists ix, pd_index (mkSpan SRange [CInt 2000; CInt 2001]) = Some ix /\
+              span_of_index ix = mkSpan SList [CInt 2000; CInt 2001]) /\
+  (exists ix, pd_index (mkSpan SNdarray [CStr "a"; CStr "b"]) = Some ix /\
+              span_of_index ix = mkSpan SList [CStr "a"; CStr "b"]) /\
+  (exists ix, pd_index (mkSpan SList [CTs 5; CTs 2]) = Some ix /\
+              span_of_index ix = mkSpan (SPandas KDatetimeIndex PDatetime) [CTs 5; CTs 2]).
+Proof. repeat split; eexists; split; vm_compute; reflexivity. Qed.
+
+(* dataframe_to_symbols: the order of the errors is the order of the loop body (first row) *)
+Example table_to_symbols_error_order :
+  let ix := mkIndex KRange PInt64 [CInt 0] in
+  let col n d c := mkCol n d [c] in
+  let base ty := [col "name" PStrDt (CStr "X"); col "type" PInt64 (CInt ty); col "lags" PInt64 (CInt 0);
+                  col "leads" PInt64 (CInt 0); col "equation" PObject CNone; col "code" PObject CNone] in
+  table_to_symbols (mkTable ix (base 99 ++ [col "extra" PInt64 (CInt 1)])) = TErr ValueError /\
+  table_to_symbols (mkTable ix (base 2 ++ [col "extra" PInt64 (CInt 1)])) = TErr TypeError /\
+  table_to_symbols (mkTable ix (firstn 5 (base 99))) = TErr ValueError /\
+  table_to_symbols (mkTable ix (firstn 5 (base 2))) = TErr KeyError /\
+  table_to_symbols (mkTable ix (tl (tl (base 2)) ++ [col "extra" PInt64 (CInt 1)])) = TErr KeyError /\
+  table_to_symbols (mkTable ix ([col "lags" PStrDt (CStr "a"); col "extra" PInt64 (CInt 1)] ++ base 2)) = TErr TypeError.
+Proof. vm_compute. repeat split; reflexivity. Qed.
